@@ -275,7 +275,7 @@ fn build(spec: &Spec) -> Internet {
 // injections
 
 const SECTIONS: [&str; 3] = ["answer", "authority", "additional"];
-const KINDS: [&str; 9] = [
+const KINDS: [&str; 10] = [
     "victim-a",
     "victim-zone-ns+glue",
     "victim-parent-ns+glue",
@@ -285,6 +285,7 @@ const KINDS: [&str; 9] = [
     "denied-server-glue",
     "sibling-a",
     "victim-zone-ns+victim-glue",
+    "own-names-ns->victim-host+forged-glue",
 ];
 
 /// (victim zone, victim's parent zone, sibling name outside the hostile zone)
@@ -335,6 +336,15 @@ fn injection(hz: usize, kind: usize, section: usize) -> Injection {
             extra_additional.push(rec_a(&host, Ipv4Addr::new(6, 6, 7, 1)));
         }
         7 => main.push(rec_a(&n(sib), Ipv4Addr::new(6, 6, 6, 5))),
+        9 => {
+            // NS records for the hostile zone's OWN names (in bailiwick) that name a host of the
+            // victim zone, with forged glue for that host (out of bailiwick)
+            let host = n(&format!("ns-forged.{}", ZONE_NAMES[vz]));
+            for label in ["www", "nx", "alias", "other"] {
+                main.push(rec_ns(&n(&format!("{label}.{hzn}")), &host));
+            }
+            extra_additional.push(rec_a(&host, Ipv4Addr::new(6, 6, 6, 7)));
+        }
         _ => {
             let host = n(&format!("ns-evil.{}", ZONE_NAMES[vz]));
             main.push(rec_ns(&n(ZONE_NAMES[vz]), &host));
@@ -741,6 +751,9 @@ struct CaseDesc {
     queries: Vec<(String, String)>,
     /// RecursorOptions::case_randomization (0x20)
     case_rand: bool,
+    /// the first query is a warm-up (another name of the main query's zone): the main query
+    /// then runs with the name-server cache already holding every ancestor's pool
+    warm: bool,
 }
 
 impl CaseDesc {
@@ -752,6 +765,7 @@ impl CaseDesc {
             "injections": self.inj.iter().map(|(k, s)| json!({"kind": k, "kind_name": KINDS[*k], "section": s, "section_name": SECTIONS[*s]})).collect::<Vec<_>>(),
             "queries": self.queries.iter().map(|(a, b)| json!([a, b])).collect::<Vec<_>>(),
             "case_randomization": self.case_rand,
+            "warm": self.warm,
         })
     }
     fn from_json(v: &Value) -> CaseDesc {
@@ -762,6 +776,7 @@ impl CaseDesc {
             inj: v["injections"].as_array().map(|a| a.iter().map(|x| (x["kind"].as_u64().unwrap() as usize, x["section"].as_u64().unwrap() as usize)).collect()).unwrap_or_default(),
             queries: v["queries"].as_array().unwrap().iter().map(|q| (q[0].as_str().unwrap().to_string(), q[1].as_str().unwrap().to_string())).collect(),
             case_rand: v["case_randomization"].as_bool().unwrap_or(false),
+            warm: v["warm"].as_bool().unwrap_or(false),
         }
     }
     fn internet(&self) -> Internet {
@@ -813,10 +828,12 @@ fn run_and_judge(desc: &CaseDesc, honest: Option<&Run>, l: &mut Local) -> Run {
     if std::env::var("VERIF_C19_DEBUG").is_ok() {
         eprintln!("{}", serde_json::to_string_pretty(&wit()).unwrap());
     }
+    let main_idx = if desc.warm && run.steps.len() > 1 { 1 } else { 0 };
     judge_common(&inet, desc.limits, &run, l, &wit);
     let skip_provenance = matches!(desc.spec.family, Family::Deep { .. });
     if !skip_provenance {
-        judge_provenance(&inet, &run, &|i| if i == 0 { "main" } else { "followup" }, l, &wit);
+        // a warm-up is a first-time resolution like the main query: same phase label
+        judge_provenance(&inet, &run, &|i| if i <= main_idx { "main" } else { "followup" }, l, &wit);
     }
     if let (Some(hz), Some(h)) = (desc.hostile, honest) {
         // follow-ups: names outside the hostile zone must resolve exactly as without the attacker
@@ -831,9 +848,9 @@ fn run_and_judge(desc: &CaseDesc, honest: Option<&Run>, l: &mut Local) -> Run {
         }
         let attacker_contacted = run.steps.iter().any(|s| s.log.iter().any(|e| inet.server_by_ip(e.ip).is_none()));
         let last = run.steps.len() - 1;
-        for (i, st) in run.steps.iter().enumerate().skip(1) {
+        for (i, st) in run.steps.iter().enumerate().skip(main_idx + 1) {
             let Some(hst) = h.steps.get(i) else { continue };
-            if i == last && st.query == run.steps[0].query {
+            if i == last && st.query == run.steps[main_idx].query {
                 // the repeated main query is about the hostile zone itself: provenance only
                 continue;
             }
@@ -868,7 +885,10 @@ fn run_and_judge(desc: &CaseDesc, honest: Option<&Run>, l: &mut Local) -> Run {
             }
         }
     }
-    l.outcome(&format!("main:{}", run.steps[0].outcome.class()));
+    l.outcome(&format!("main:{}", run.steps[main_idx].outcome.class()));
+    if desc.warm {
+        l.outcome("warm-cache-main-query");
+    }
     run
 }
 
@@ -1069,9 +1089,9 @@ fn main() {
     ctx.set_rule(
         "(A) zone graphs root/t./o./l.t./v.o. with every combination of NS styles (t.: in-zone+glue, in-zone-no-glue, sibling-glueless, in-child+glue; o.: in-zone+glue, sibling-glueless; \
          l.t.: in-zone+glue, no-glue, sibling-tld, sibling-leaf, parent-zone; v.o.: in-zone+glue, sibling-tld, sibling-leaf; 120 graphs incl. all mutual glueless cycles) x 1 (quick) / 1-2 (thorough) servers per zone \
-         x 8 queries x limits {(4,4),(8,8),(24,24)}, honest; (B) every graph x hostile zone in {t., o., l.t., v.o.} (all its servers) x injection kind (9: victim A, victim-zone NS+glue, victim-parent NS+glue, root NS+glue, \
-         CNAME->victim + victim A, in-bailiwick A at a denied answer address, in-bailiwick NS + glue at a denied server address, sibling A, victim NS + victim glue) x section {answer, authority, additional} added to EVERY response \
-         x main query, followed on the same recursor by 3-4 follow-up queries for names outside the hostile subtree; thorough adds all unordered pairs of injections on the plain graph and on every graph that differs from it in at most two zones' NS styles; \
+         x 8 queries x limits {(4,4),(8,8),(24,24)}, honest; (B) every graph x hostile zone in {t., o., l.t., v.o.} (all its servers) x injection kind (10: victim A, victim-zone NS+glue, victim-parent NS+glue, root NS+glue, \
+         CNAME->victim + victim A, in-bailiwick A at a denied answer address, in-bailiwick NS + glue at a denied server address, sibling A, victim NS + victim glue, NS for the hostile zone's own names naming a victim-zone host + forged glue for it) x section {answer, authority, additional} added to EVERY response \
+         x main query (cold, and - when the hostile zone is the one holding the queried name - also after a warm-up query for another name of that zone, i.e. with every ancestor's pool already in the name-server cache), followed on the same recursor by 3-4 follow-up queries for names outside the hostile subtree; thorough adds all unordered pairs of injections on the plain graph and on every graph that differs from it in at most two zones' NS styles; \
          (C) lame kinds {REFUSED, upward referral, self referral, empty NOERROR, timeout} x zone x {1 server, 2 servers both lame, 2 servers first lame}; \
          (D) CNAME chains 1..70 (in-zone / cross-zone, server chases in-zone or not), CNAME loops 1..3, NS-for-NS chains 1..30, glueless cycles 1..8 (1 NS name) / 1..6 (2 NS names), delegation depth 1..40, each x limits; \
          (E) stub CachingClient: CNAME chains 1..20, loops 1..3, 1-2 CNAMEs per response, preserve_intermediates on/off. \
@@ -1091,13 +1111,13 @@ fn main() {
     for s in &specs {
         for lim in limits_all {
             for q in &queries {
-                honest_descs.push(CaseDesc { spec: s.clone(), limits: lim, hostile: None, inj: vec![], queries: vec![(q.0.to_string(), q.1.to_string())], case_rand: false });
+                honest_descs.push(CaseDesc { spec: s.clone(), limits: lim, hostile: None, inj: vec![], queries: vec![(q.0.to_string(), q.1.to_string())], case_rand: false, warm: false });
             }
         }
     }
     for s in lame_specs() {
         for q in &queries {
-            honest_descs.push(CaseDesc { spec: s.clone(), limits: (8, 8), hostile: None, inj: vec![], queries: vec![(q.0.to_string(), q.1.to_string())], case_rand: false });
+            honest_descs.push(CaseDesc { spec: s.clone(), limits: (8, 8), hostile: None, inj: vec![], queries: vec![(q.0.to_string(), q.1.to_string())], case_rand: false, warm: false });
         }
     }
     ctx.set("graphs", json!(specs.len()));
@@ -1124,7 +1144,7 @@ fn main() {
 
     // the plain graph must resolve: otherwise everything below is vacuous
     {
-        let d = CaseDesc { spec: Spec::base(), limits: (8, 8), hostile: None, inj: vec![], queries: vec![("www.l.t.".into(), "A".into()), ("alias.l.t.".into(), "A".into())], case_rand: false };
+        let d = CaseDesc { spec: Spec::base(), limits: (8, 8), hostile: None, inj: vec![], queries: vec![("www.l.t.".into(), "A".into()), ("alias.l.t.".into(), "A".into())], case_rand: false, warm: false };
         let run = execute_caught(Arc::new(d.internet()), d.limits, d.case_rand, &d.parsed_queries());
         let ok = run.steps.iter().all(|s| matches!(&s.outcome, Outcome::Ok { answers, .. } if answers.iter().any(|r| r.record_type() == RecordType::A)));
         if !ok {
@@ -1138,7 +1158,7 @@ fn main() {
         let mut cases = vec![];
         for s in specs.iter().filter(|s| s.style.iter().sum::<usize>() <= 1) {
             for q in &queries {
-                cases.push(CaseDesc { spec: s.clone(), limits: (8, 8), hostile: None, inj: vec![], queries: vec![(q.0.to_string(), q.1.to_string())], case_rand: true });
+                cases.push(CaseDesc { spec: s.clone(), limits: (8, 8), hostile: None, inj: vec![], queries: vec![(q.0.to_string(), q.1.to_string())], case_rand: true, warm: false });
             }
         }
         ctx.set("case_randomization_cases", json!(cases.len()));
@@ -1163,11 +1183,25 @@ fn main() {
     for s in &specs {
         for hz in [T, O, LT, VO] {
             for q in &queries {
-                let mut qs = vec![(q.0.to_string(), q.1.to_string())];
-                qs.extend(followups(hz));
-                // and the main query once more: what the first resolution left in the caches
-                qs.push((q.0.to_string(), q.1.to_string()));
-                refs.push((CaseDesc { spec: s.clone(), limits: inj_limits, hostile: None, inj: vec![], queries: qs, case_rand: false }, hz));
+                // the zone the main query's name lives in (its first label stripped, unless it asks
+                // for the NS set of the zone itself)
+                let qzone = if q.1 == "NS" { q.0.to_string() } else { q.0.split_once('.').map(|x| x.1.to_string()).unwrap_or_default() };
+                for warm in [false, true] {
+                    // the warm variant only matters when the hostile zone is the one that is
+                    // asked for the main query's (then only uncached) label
+                    if warm && ZONE_NAMES[hz] != qzone {
+                        continue;
+                    }
+                    let mut qs = vec![];
+                    if warm {
+                        qs.push((format!("other.{qzone}"), "A".to_string()));
+                    }
+                    qs.push((q.0.to_string(), q.1.to_string()));
+                    qs.extend(followups(hz));
+                    // and the main query once more: what the first resolution left in the caches
+                    qs.push((q.0.to_string(), q.1.to_string()));
+                    refs.push((CaseDesc { spec: s.clone(), limits: inj_limits, hostile: None, inj: vec![], queries: qs, case_rand: false, warm }, hz));
+                }
             }
         }
     }
@@ -1243,7 +1277,7 @@ fn main() {
     ctx.par_run(tjobs.len() as u64, 2, |i, l| {
         let (fi, vi, lim) = tjobs[i as usize];
         let (nn, spec, q) = &fams[fi].1[vi];
-        let d = CaseDesc { spec: spec.clone(), limits: lim, hostile: None, inj: vec![], queries: vec![q.clone()], case_rand: false };
+        let d = CaseDesc { spec: spec.clone(), limits: lim, hostile: None, inj: vec![], queries: vec![q.clone()], case_rand: false, warm: false };
         let run = run_and_judge(&d, None, l);
         l.outcome(&format!("termination:{}:{}", fams[fi].0.split(':').next().unwrap(), run.steps[0].outcome.class()));
         counts.lock().unwrap().entry((fi, lim)).or_default().insert(*nn, (run.steps[0].log.len(), run.steps[0].outcome.class()));
@@ -1307,7 +1341,7 @@ fn main() {
         ctx.set("stub_measured", Value::Object(stub));
     });
 
-    for class in ["hostile-server-contacted", "followup-equals-honest", "plateau-checked", "selftest:replayed-identically", "stub:error", "stub:answer", "main:answer", "main:nxdomain", "main:nodata"] {
+    for class in ["warm-cache-main-query", "hostile-server-contacted", "followup-equals-honest", "plateau-checked", "selftest:replayed-identically", "stub:error", "stub:answer", "main:answer", "main:nxdomain", "main:nodata"] {
         if ctx.outcome_count(class) == 0 {
             ctx.machinery_failure(&format!("vacuous run: outcome class '{class}' was never exercised"));
         }
